@@ -100,6 +100,29 @@ func (e *Env) emissionsOf(l *facts.Level, lf *ir.Leaf) (list []emission, builder
 			if em.field != nil && em.field.Name() == "Ver" {
 				em.kind = "version"
 			}
+		case p.Op == "concat" && len(p.Args) == 2 && isStrConstTerm(p.Args[0]) && p.Args[1].Op == ir.OCall && len(p.Args[1].Args) == 1 && p.Args[1].Args[0].Op == ir.OField && isStringMethod(p.Args[1]):
+			// "NAME:" + field.String()  prints what  Sprintf("%s:%v", NAME, field)  prints (%v of a Stringer is its String())
+			txt := constant.StringVal(p.Args[0].C)
+			em.format = "%s:%v"
+			if strings.HasPrefix(txt, "/") {
+				em.format = "/%s:%v"
+				txt = txt[1:]
+			}
+			if !strings.HasSuffix(txt, ":") || strings.ContainsAny(txt[:len(txt)-1], ":/") || len(txt) < 2 {
+				return nil, builder, fmt.Errorf("unrecognised emission: %s", clip(p.Pretty()))
+			}
+			em.name = txt[:len(txt)-1]
+			v := p.Args[1].Args[0]
+			em.field, _ = v.Obj.(*types.Var)
+			em.kind = "metric"
+			if v.Args[0].Op != ir.OParam || v.Args[0].N != 0 {
+				if !(l.VerField == nil && em.field != nil && em.field.Name() == "Ver") {
+					return nil, builder, fmt.Errorf("emission prints a field of another object: %s", clip(p.Pretty()))
+				}
+			}
+			if em.field != nil && em.field.Name() == "Ver" {
+				em.kind = "version"
+			}
 		case l.Lower != nil && p.Op == ir.OExtract && p.N == 0 && len(p.Args) == 1 && p.Args[0].Op == ir.OCall && p.Args[0].Obj == types.Object(l.Lower.Method("Encode")):
 			em.kind = "lower"
 		case l.Lower != nil && p.Op == ir.OCall && p.Obj == types.Object(l.Lower.Method("String")):
@@ -307,4 +330,18 @@ func (e *Env) encodeRules(l *facts.Level) {
 	} else {
 		c.Fail("string-is-encode", l.String()+".String", "", "method not found")
 	}
+}
+
+func isStrConstTerm(t *ir.Term) bool {
+	return t.Op == ir.OConst && t.C != nil && t.C.Kind() == constant.String
+}
+
+// isStringMethod: the call is the String() string method of its receiver's own type (fmt's %v uses exactly that).
+func isStringMethod(t *ir.Term) bool {
+	fn, _ := t.Obj.(*types.Func)
+	if fn == nil || fn.Name() != "String" {
+		return false
+	}
+	sig := fn.Type().(*types.Signature)
+	return sig.Recv() != nil && sig.Params().Len() == 0 && sig.Results().Len() == 1 && types.Identical(sig.Results().At(0).Type(), types.Typ[types.String])
 }
